@@ -151,6 +151,9 @@ func (s *Sim) Logf(format string, a ...interface{}) {
 }
 
 func (s *Sim) logLocked(line string) {
+	if s.teardown.Load() || s.inline.Load() {
+		return // free-running phases are not part of the replayable history
+	}
 	h := fnv.New64a()
 	var b [8]byte
 	for i := 0; i < 8; i++ {
